@@ -34,6 +34,8 @@
                   sh      sh[i] = e                    exset   ex  = e      exadd  ex += e
                   atomic  @atomic acc[cell] += e       let     const int tmp = e
                   atomsub @atomic acc[cell] -= e       atominc @atomic acc[cell]++   atomdec @atomic --acc[cell]
+                  atomblk @atomic { acc[cell] += e; acc[(cell + 1) % 3] += e + 1; }  (one indivisible block)
+                  atomset @atomic acc[cell] = acc[cell] + e;                         (a non-basic @atomic expression)
                   via (atomic statements only): how the updated cell of acc is named --
                     "direct" acc[c]             "ptr"  `int *p = acc + c;` inside the @inner body, `*p`
                     "ref"    `int &r = acc[c];` inside the @inner body, `r`
@@ -179,8 +181,10 @@ PhaseOn(ph, arg, o) ==
   CASE ph.wrap \in {"none", "block"} -> TRUE
     [] ph.wrap = "ifo" -> o % 2 = 0
     [] ph.wrap = "ifa" -> arg.a > 0
-AtomicOps == {"atomic", "atomsub", "atominc", "atomdec"}
-AtomDelta(s, v) == CASE s.op = "atomic" -> v [] s.op = "atomsub" -> 0 - v [] s.op = "atominc" -> 1 [] s.op = "atomdec" -> 0 - 1
+\* atomblk: `@atomic { acc[c] += e; acc[(c + 1) % NACC] += e + 1; }` -- one indivisible block of two updates;
+\* atomset: `@atomic acc[c] = acc[c] + e;` -- a non-basic @atomic expression (a critical region in OpenMP)
+AtomicOps == {"atomic", "atomsub", "atominc", "atomdec", "atomblk", "atomset"}
+AtomDelta(s, v) == CASE s.op \in {"atomic", "atomblk", "atomset"} -> v [] s.op = "atomsub" -> 0 - v [] s.op = "atominc" -> 1 [] s.op = "atomdec" -> 0 - 1
 
 \* one application of the basic operation (condition and repetition are handled by the callers)
 Apply(s, nest, arg, o, i, S) ==
@@ -196,6 +200,8 @@ Apply(s, nest, arg, o, i, S) ==
          [] s.op = "exset"  -> [S EXCEPT !.ex[i + 1] = v]
          [] s.op = "exadd"  -> IF S.ex[i + 1] = UNDEF THEN [S EXCEPT !.bad = TRUE]
                                ELSE [S EXCEPT !.ex[i + 1] = @ + v]
+         [] s.op = "atomblk" -> LET a2 == (a % NACC) + 1 IN      \* both updates in one indivisible step
+                                [S EXCEPT !.acc = [[@ EXCEPT ![a] = @ + v] EXCEPT ![a2] = @ + v + 1]]
          [] s.op \in AtomicOps -> [S EXCEPT !.acc[a] = @ + AtomDelta(s, v)]
          [] s.op = "let"    -> [S EXCEPT !.tmp = v]
 
@@ -275,7 +281,7 @@ StmtShapeOK(s) ==
   /\ s.n >= 1
   /\ s.n > 1 => s.op \in {"outadd", "exadd"} \cup AtomicOps
   /\ s.via \in {"direct", "ptr", "ref", "row"}
-  /\ s.via # "direct" => s.op \in AtomicOps
+  /\ s.via # "direct" => s.op \in AtomicOps \ {"atomblk", "atomset"}
 
 \* may statement s be appended to the last phase of nest?
 Allowed(s, nest) ==
